@@ -4,5 +4,5 @@ From Coq Require Extraction ExtrOcamlBasic ExtrOcamlString.
 From ES Require Import Base Ssb.Param Ssb.Cfg Ssb.Equiv Ssb.Machine Lang.Ast Lang.Spec Lang.SrcSem.
 Extraction Language OCaml.
 Extraction "extracted.ml"
-  equiv_run cfg_of_ssb ssb_entries cfg_of_prog pair_entries observe param_eqb
+  equiv_run cfg_of_ssb ssb_entries cfg_of_prog pair_entries silent_cycle observe param_eqb
   Z.add Z.mul Z.opp Z.abs Z.div_eucl.
